@@ -80,6 +80,8 @@ CONSTANTS Depths,      \* set of max_depth values D (doublings j = 0..D, as code
           KDiv         \* TRUE: patterns over {out, in, divergent}; FALSE: {out, in}
 
 VARIABLES orb,     \* orbit id <<rho word, phase, lp word, phase, k>>  (eps = 1/k)
+          ot,      \* the orbit tables [eps, x, g, r, lp, H] of that id (constant during a behaviour; a variable only
+                   \* because TLC does not cache constant definitions that use RECURSIVE operators)
           md,      \* max_depth
           pc,      \* control: momentum, slice, direction, build, stopcheck, finish, done
           ed,      \* slice draw id (e = ed/3)
@@ -103,7 +105,7 @@ VARIABLES orb,     \* orbit id <<rho word, phase, lp word, phase, k>>  (eps = 1/
           ntree,   \* number of _BuildTree calls (tree nodes)
           kc       \* kernel-level configuration (N = 0 in step-level behaviours)
 
-vars == <<orb, md, pc, ed, logu, v, tm, tp, zm, zp, j, n, s, cur, clp, cg, acc, stack, ret, al, na,
+vars == <<orb, ot, md, pc, ed, logu, v, tm, tp, zm, zp, j, n, s, cur, clp, cg, acc, stack, ret, al, na,
           leaves, last, subs, draws, flagAt, w, ntree, kc>>
 
 \* ------------------------------------------------------------------------------------------------
@@ -168,8 +170,7 @@ MkOrbit(id) ==
     IN [eps |-> eps, x |-> xs, g |-> gs, r |-> rs, lp |-> lps, H |-> Hs]
 
 OrbIds == { <<wp[1], wp[2], lq[1], lq[2], k>> : wp \in WordSet, lq \in LpSet, k \in EpsDens }
-OrbTab == F([id \in OrbIds |-> MkOrbit(id)])
-O      == OrbTab[orb]
+O      == ot
 Z(Ob, t) == <<Ob.x[t], Ob.r[t]>>
 
 Injective(Ob) == Cardinality({Ob.x[t] : t \in TR}) = 2 * TMax + 1
@@ -240,12 +241,14 @@ Flag(sflag, nl) == IF flagAt = -1 /\ sflag = 0 THEN nl ELSE flagAt
 \* ------------------------------------------------------------------------------------------------
 \* step-level behaviour
 \* ------------------------------------------------------------------------------------------------
-Dummy == /\ orb = <<>> /\ md = 0 /\ pc = "none" /\ ed = 0 /\ logu = Zero /\ v = 0 /\ tm = 0 /\ tp = 0
+Dummy == /\ orb = <<>> /\ ot = <<>> /\ md = 0 /\ pc = "none" /\ ed = 0 /\ logu = Zero /\ v = 0 /\ tm = 0 /\ tp = 0
          /\ zm = <<Zero, Zero>> /\ zp = <<Zero, Zero>> /\ j = 0 /\ n = 0 /\ s = 1 /\ cur = 0 /\ clp = 0 /\ cg = 0
          /\ acc = 0 /\ stack = <<>> /\ ret = NoRet /\ al = <<>> /\ na = 0 /\ leaves = <<>> /\ last = <<>>
          /\ subs = <<>> /\ draws = <<>> /\ flagAt = -1 /\ w = One /\ ntree = 0
 
-Init == /\ orb \in {id \in OrbIds : Injective(OrbTab[id])}
+Init == /\ orb \in OrbIds
+        /\ ot = MkOrbit(orb)
+        /\ Injective(ot)
         /\ md \in Depths
         /\ Sel(orb, md)
         /\ pc = "momentum" /\ ed = 0 /\ logu = Zero /\ v = 0 /\ tm = 0 /\ tp = 0
@@ -260,7 +263,7 @@ DrawMomentum ==
     /\ zm' = Z(O, 0) /\ zp' = Z(O, 0)
     /\ draws' = Append(draws, [k |-> "normal", cls |-> "r0", tau |-> O.r[0]])
     /\ pc' = "slice"
-    /\ UNCHANGED <<orb, md, ed, logu, v, tm, tp, j, n, s, cur, clp, cg, acc, stack, ret, al, na, leaves, last, subs,
+    /\ UNCHANGED <<orb, ot, md, ed, logu, v, tm, tp, j, n, s, cur, clp, cg, acc, stack, ret, al, na, leaves, last, subs,
                    flagAt, w, ntree, kc>>
 
 \* log_u = Ham - exponential(1);  Ham uses the CACHED log-density of the current point;  j, s, n = 0, 1, 1
@@ -271,7 +274,7 @@ DrawSlice(e) ==
     /\ draws' = Append(draws, [k |-> "exponential", cls |-> "e", tau |-> Q(e, 3)])
     /\ j' = 0 /\ s' = 1 /\ n' = 1
     /\ pc' = "direction"
-    /\ UNCHANGED <<orb, md, v, tm, tp, zm, zp, cur, clp, cg, acc, stack, ret, al, na, leaves, last, subs, flagAt, w,
+    /\ UNCHANGED <<orb, ot, md, v, tm, tp, zm, zp, cur, clp, cg, acc, stack, ret, al, na, leaves, last, subs, flagAt, w,
                    ntree, kc>>
 
 \* v ~ Uniform{-1, 1}; call _BuildTree from the extreme leaf in direction v
@@ -284,7 +287,7 @@ Direction(vv) ==
     /\ draws' = Append(draws, [k |-> "dir", cls |-> IF vv = 1 THEN "plus" ELSE "minus", tau |-> Half])
     /\ w' = RMul(w, Half)
     /\ pc' = "build"
-    /\ UNCHANGED <<orb, md, ed, logu, tm, tp, zm, zp, j, n, s, cur, clp, cg, acc, ret, al, na, leaves, subs, flagAt, kc>>
+    /\ UNCHANGED <<orb, ot, md, ed, logu, tm, tp, zm, zp, j, n, s, cur, clp, cg, acc, ret, al, na, leaves, subs, flagAt, kc>>
 
 \* base case: one leapfrog step in direction v, slice indicator, divergence flag, Metropolis exponent
 Leaf(t) ==
@@ -302,7 +305,7 @@ Leaf(t) ==
           /\ subs' = Append(subs, Proj(rec))
           /\ flagAt' = Flag(s1, Len(leaves) + 1)
     /\ stack' = Pop
-    /\ UNCHANGED <<orb, md, pc, ed, logu, v, tm, tp, zm, zp, j, n, s, cur, clp, cg, acc, al, na, draws, w, ntree, kc>>
+    /\ UNCHANGED <<orb, ot, md, pc, ed, logu, v, tm, tp, zm, zp, j, n, s, cur, clp, cg, acc, al, na, draws, w, ntree, kc>>
 
 \* the first half returned with s' = 1: build the second half from its outer end
 SecondHalf ==
@@ -312,7 +315,7 @@ SecondHalf ==
                          IF v = 1 THEN ret.hi ELSE ret.lo, IF v = 1 THEN ret.zhi ELSE ret.zlo)
     /\ ntree' = ntree + Top.j
     /\ ret' = NoRet
-    /\ UNCHANGED <<orb, md, pc, ed, logu, v, tm, tp, zm, zp, j, n, s, cur, clp, cg, acc, al, na, leaves, last, subs,
+    /\ UNCHANGED <<orb, ot, md, pc, ed, logu, v, tm, tp, zm, zp, j, n, s, cur, clp, cg, acc, al, na, leaves, last, subs,
                    draws, flagAt, w, kc>>
 
 \* the first half returned with s' = 0: the call returns the values of the first half unchanged
@@ -322,7 +325,7 @@ EarlyReturn ==
     /\ ret' = [ret EXCEPT !.j = Top.j]
     /\ subs' = Append(subs, Proj(ret'))
     /\ stack' = Pop
-    /\ UNCHANGED <<orb, md, pc, ed, logu, v, tm, tp, zm, zp, j, n, s, cur, clp, cg, acc, al, na, leaves, last, draws,
+    /\ UNCHANGED <<orb, ot, md, pc, ed, logu, v, tm, tp, zm, zp, j, n, s, cur, clp, cg, acc, al, na, leaves, last, draws,
                    flagAt, w, ntree, kc>>
 
 \* both halves built: progressive sub-sampling, counters, stopping criterion of the merged subtree
@@ -347,7 +350,7 @@ MergeSubtrees(cls) ==
           /\ w' = IF md <= 2 THEN RMul(w, PB(tau, cls)) ELSE w
           /\ flagAt' = Flag(s1, Len(leaves))
     /\ stack' = Pop
-    /\ UNCHANGED <<orb, md, pc, ed, logu, v, tm, tp, zm, zp, j, n, s, cur, clp, cg, acc, al, na, leaves, last, ntree, kc>>
+    /\ UNCHANGED <<orb, ot, md, pc, ed, logu, v, tm, tp, zm, zp, j, n, s, cur, clp, cg, acc, al, na, leaves, last, ntree, kc>>
 
 \* top level: if the new half-tree is usable (s' = 1) its candidate is accepted with probability min(1, n'/n) -
 \* unless its log-density is not finite; point, cached log-density and cached gradient are replaced together
@@ -364,7 +367,7 @@ TopLevelAccept(cls) ==
                ELSE UNCHANGED <<cur, clp, cg, acc>>
        ELSE cls = "Skip" /\ UNCHANGED <<draws, w, cur, clp, cg, acc>>
     /\ pc' = "stopcheck"
-    /\ UNCHANGED <<orb, md, ed, logu, v, tm, tp, zm, zp, j, n, s, stack, ret, al, na, leaves, last, subs, flagAt, ntree, kc>>
+    /\ UNCHANGED <<orb, ot, md, ed, logu, v, tm, tp, zm, zp, j, n, s, stack, ret, al, na, leaves, last, subs, flagAt, ntree, kc>>
 
 \* n += n'; new extreme leaves; s = s' [no U-turn between the extremes]; j += 1; statistic of THIS doubling reported
 StopCheck ==
@@ -380,12 +383,12 @@ StopCheck ==
           /\ flagAt' = Flag(s1, Len(leaves))
           /\ pc' = IF s1 = 1 /\ j + 1 <= md THEN "direction" ELSE "finish"
     /\ ret' = NoRet
-    /\ UNCHANGED <<orb, md, ed, logu, v, cur, clp, cg, acc, stack, leaves, last, subs, draws, w, ntree, kc>>
+    /\ UNCHANGED <<orb, ot, md, ed, logu, v, cur, clp, cg, acc, stack, leaves, last, subs, draws, w, ntree, kc>>
 
 \* diagnostics stored, step() returns acc
 Finish ==
     /\ pc = "finish" /\ pc' = "done"
-    /\ UNCHANGED <<orb, md, ed, logu, v, tm, tp, zm, zp, j, n, s, cur, clp, cg, acc, stack, ret, al, na, leaves, last,
+    /\ UNCHANGED <<orb, ot, md, ed, logu, v, tm, tp, zm, zp, j, n, s, cur, clp, cg, acc, stack, ret, al, na, leaves, last,
                    subs, draws, flagAt, w, ntree, kc>>
 
 Next == \/ DrawMomentum
@@ -452,7 +455,7 @@ AlphaStat == (kc.N = 0 /\ pc \in {"finish", "done"}) =>
 
 NoNonFiniteSelected == Live => IsFin(O.lp[cur])
 CacheBelongs        == Live => (clp = cur /\ cg = cur)
-AccFlag             == Live => ((cur # 0 => acc = 1) /\ (acc = 1 => cur \in tm..tp))
+AccFlag             == Live => ((cur # 0 => acc = 1) /\ (pc \in {"direction", "finish", "done"} => cur \in tm..tp))
 
 \* facets of a completed transition as they are logged from real runs (TraceNuts)
 MaxNodes(d) == Pow2(d + 1) - d - 2                 \* sum over k < d of (2^(k+1) - 1)
